@@ -97,16 +97,29 @@ long FindNum(const std::string& s, const std::string& key)
 	return v;
 }
 
-// canonical rendering of the messages queued on a connection; clears the queue
-std::string DumpQueue(int i)
+// raw messages queued on a connection; clears the queue
+std::vector<std::string> CollectQueue(int i)
 {
 	Poll();
+	std::vector<std::string> r;
+	if (!l_Cl[i]) return r;
+	for (const String& m : l_Cl[i]->m_OutgoingMessagesQueue) r.push_back(m.GetData());
+	l_Cl[i]->m_OutgoingMessagesQueue.clear();
+	return r;
+}
+
+bool IsSetLogPosition(const std::string& s)
+{
+	return s.find("\"log::SetLogPosition\"") != std::string::npos && s.find("\"ts\"") == std::string::npos;
+}
+
+// canonical rendering
+std::string Render(const std::vector<std::string>& q)
+{
 	std::string r;
-	if (!l_Cl[i]) return "-";
-	for (const String& m : l_Cl[i]->m_OutgoingMessagesQueue) {
-		std::string s = m.GetData();
+	for (const std::string& s : q) {
 		if (!r.empty()) r += ",";
-		if (s.find("\"log::SetLogPosition\"") != std::string::npos && s.find("\"ts\"") == std::string::npos) {
+		if (IsSetLogPosition(s)) {
 			r += "P" + std::to_string(FindNum(s, "\"log_position\":"));
 		} else {
 			unsigned long sum = 0;
@@ -114,8 +127,13 @@ std::string DumpQueue(int i)
 			r += "M" + std::to_string(s.size()) + ":" + std::to_string(sum) + ":" + std::to_string(FindNum(s, "\"id\":")) + ":" + std::to_string(FindNum(s, "\"ts\":"));
 		}
 	}
-	l_Cl[i]->m_OutgoingMessagesQueue.clear();
 	return r.empty() ? "-" : r;
+}
+
+std::string DumpQueue(int i)
+{
+	if (!l_Cl[i]) { Poll(); return "-"; }
+	return Render(CollectQueue(i));
 }
 
 void FlushLog()
@@ -219,7 +237,10 @@ VOP(rl_relay)
 	Out("rl_relay logged=" + std::to_string(l_L->m_LogMessageCount != before ? 1 : 0) + " live=" + (live.empty() ? "-" : live));
 }
 
-// rl_conn e=ID : the endpoint connects; flags as NewClientHandler/SyncClient set them; ReplayLog
+// rl_conn e=ID [mirror=1] : the endpoint connects; flags as NewClientHandler/SyncClient set them; ReplayLog.
+// mirror=1: the peer runs the same code in the same situation (it also kept a log for us during the outage): what it
+// emits while replaying is what OUR ReplayLog emits now; its log::SetLogPosition messages (really emitted, byte for byte)
+// reach our MessageHandler before our own ReplayLog starts (the peer finished its config sync first).
 VOP(rl_conn)
 {
 	int i = a.num("e");
@@ -227,8 +248,18 @@ VOP(rl_conn)
 	l_Cl[i] = new JsonRpcConnection(l_Ep[i]->GetName(), true, nullptr, RoleServer, *l_Io);
 	l_Ep[i]->AddClient(l_Cl[i]);
 	{ ObjectLock olock(l_Ep[i]); l_Ep[i]->SetSyncing(true); }
+	std::string mirror;
+	if (a.num("mirror", 0)) {
+		l_L->ReplayLog(l_Cl[i]);
+		std::vector<std::string> q = CollectQueue(i);
+		mirror = " mirror=" + Render(q);
+		for (const std::string& m : q)
+			if (IsSetLogPosition(m))
+				l_Cl[i]->MessageHandler(JsonDecode(m));
+		{ ObjectLock olock(l_Ep[i]); l_Ep[i]->SetSyncing(true); }
+	}
 	l_L->ReplayLog(l_Cl[i]);
-	Out("rl_conn e=" + std::to_string(i) + " out=" + DumpQueue(i));
+	Out("rl_conn e=" + std::to_string(i) + mirror + " out=" + DumpQueue(i));
 }
 
 VOP(rl_disc)
